@@ -87,6 +87,61 @@ pub enum Fmt {
     Panic(String),
 }
 
+/// `format_expr` at another line width, through the verification hook
+/// `Formatter::verif_pretty_expr_width` (format/src/lib.rs:49, cfg gluon_verif); the path to the
+/// expression replicates src/lib.rs `format_expr_async` (reparse_infix, refuse on parse errors of
+/// this file, skip the implicit prelude).
+pub fn format_width(vm: &RootedThread, src: &str, width: usize) -> Fmt {
+    use gluon::compiler_pipeline::InfixReparseable;
+    use gluon_base::ast::{Expr, SpannedExpr};
+    use gluon_base::error::Salvage;
+    use gluon_base::pos::{BytePos, Span};
+    use gluon_base::symbol::Symbol;
+    fn has_parse_error(file: &str, err: &gluon::Error) -> bool {
+        match err {
+            gluon::Error::Multiple(errors) => errors.iter().any(|e| has_parse_error(file, e)),
+            gluon::Error::Parse(err) => err.source_name() == file,
+            _ => false,
+        }
+    }
+    fn skip_implicit_prelude<'a, 'ast>(
+        span: Span<BytePos>,
+        mut l: &'a SpannedExpr<'ast, Symbol>,
+    ) -> &'a SpannedExpr<'ast, Symbol> {
+        loop {
+            match l.value {
+                Expr::LetBindings(_, ref e) if !span.contains(l.span) => l = e,
+                _ => break l,
+            }
+        }
+    }
+    let file = "c10_input";
+    let r = gv::catch(|| -> Result<String, String> {
+        let mut db = vm.get_database();
+        let expr = {
+            let mut compiler = vm.module_compiler(&mut db);
+            match futures::executor::block_on(src.reparse_infix(&mut compiler, vm, file, src)) {
+                Ok(e) => e.expr,
+                Err(Salvage { value: Some(e), error }) => {
+                    if has_parse_error(file, &error) {
+                        return Err(format!("{}", error));
+                    }
+                    e.expr
+                }
+                Err(Salvage { value: None, error }) => return Err(format!("{}", error)),
+            }
+        };
+        let file_map = db.get_filemap(file).ok_or_else(|| "no filemap".to_string())?;
+        let e = skip_implicit_prelude(file_map.span(), expr.expr());
+        Ok(gluon_format::Formatter::default().verif_pretty_expr_width(width, &*file_map, e))
+    });
+    match r {
+        Ok(Ok(s)) => Fmt::Ok(s),
+        Ok(Err(e)) => Fmt::Refused(e),
+        Err(p) => Fmt::Panic(p),
+    }
+}
+
 pub fn format(vm: &RootedThread, src: &str) -> Fmt {
     match gv::catch(|| vm.format_expr(&mut gluon_format::Formatter::default(), "c10_input", src)) {
         Ok(Ok(s)) => Fmt::Ok(s),
@@ -194,6 +249,15 @@ fn line_tag(src: &str) -> String {
 
 /// Evaluate the property statement on one input text.
 pub fn check(vm: &RootedThread, src: &str) -> Verdict {
+    check_with(src, &|s| format(vm, s))
+}
+
+/// The same at another line width (through the hook).
+pub fn check_width(vm: &RootedThread, src: &str, width: usize) -> Verdict {
+    check_with(src, &|s| format_width(vm, s, width))
+}
+
+pub fn check_with(src: &str, format: &dyn Fn(&str) -> Fmt) -> Verdict {
     let a0 = match ast(src) {
         Ok(a) => a,
         Err(_) => return Verdict::Skip("input-does-not-parse"),
@@ -202,7 +266,7 @@ pub fn check(vm: &RootedThread, src: &str) -> Verdict {
         Some(t) => t,
         None => return Verdict::Skip("oracle-tokenizer"),
     };
-    let f1 = match format(vm, src) {
+    let f1 = match format(src) {
         Fmt::Ok(s) => s,
         Fmt::Refused(e) => {
             // `format_expr` refuses on parse errors; an operator chain with conflicting or
@@ -271,7 +335,7 @@ pub fn check(vm: &RootedThread, src: &str) -> Verdict {
     if l0 != l1 {
         return fail("literal-changed", format!("{:?} -> {:?}", l0, l1), None, Some(&f1));
     }
-    match format(vm, &f1) {
+    match format(&f1) {
         Fmt::Ok(f2) => {
             if f2 != f1 {
                 let tag = f1
@@ -296,4 +360,35 @@ fn first_diff(a: &str, b: &str) -> String {
         }
     }
     format!("line count {} -> {}", a.lines().count(), b.lines().count())
+}
+
+
+/// Render the type of `type T = <ty>` with the real type printer at the given widths
+/// (`TypeFormatter::width`, base/src/types/pretty_print.rs:98). `Err` = the text does not parse.
+pub fn type_at_widths(ty_src: &str, widths: &[usize]) -> Result<Vec<Result<String, String>>, String> {
+    use gluon_base::ast::Expr;
+    use gluon_base::types::pretty_print::TypeFormatter;
+    let src = format!("type T = {}\n()\n", ty_src);
+    mk_ast_arena!(arena);
+    let mut env: MockEnv<String> = MockEnv(PhantomData);
+    let tc: TypeCache<String, gluon_base::types::ArcType<String>> = TypeCache::new();
+    let r = gv::catch(|| {
+        match gluon_parser::parse_partial_expr((*arena).borrow(), &mut env, &tc, &src[..]) {
+            Ok(e) => match &e.value {
+                Expr::TypeBindings(binds, _) => {
+                    let typ = binds[0].alias.value.unresolved_type();
+                    Ok(widths
+                        .iter()
+                        .map(|w| gv::catch(|| format!("{}", TypeFormatter::new(typ).width(*w))))
+                        .collect::<Vec<_>>())
+                }
+                _ => Err("not a type binding".to_string()),
+            },
+            Err((_, errs)) => Err(format!("{}", errs)),
+        }
+    });
+    match r {
+        Ok(x) => x,
+        Err(p) => Err(format!("parser panic: {}", p)),
+    }
 }
